@@ -6,7 +6,7 @@
       pypyr/loaders/file.py    get_pipeline_path, find_pipeline, load_pipeline_from_file
       pypyr/steps/pype.py      get_arguments (loader / resolveFromParent / parent)
       pypyr/pipeline.py        Pipeline.load_and_run_pipeline
-      pypyr/cache/loadercache.py  Loader.get_pipeline (the [parent+name] cache key)
+      pypyr/cache/loadercache.py  Loader.get_pipeline (the [(parent, name)] cache key)
       pypyr/moduleloader.py    add_sys_path
       pypyr/pipedef.py         PipelineInfo / PipelineFileInfo
 
@@ -254,16 +254,26 @@ Definition child_parent (info : pinfo) (o : pype_opts) : pyparent :=
 Definition effective_loader (l : option string) : string :=
   match l with Some s => if s =? "" then FILE_LOADER else s | None => FILE_LOADER end.
 
-(** [normalized_name = f'{parent}+{name}' if parent else name] *)
-Definition cache_key (parent : pyparent) (name : string) : string :=
-  if p_truthy parent then p_str parent ++ "+" ++ name else name.
+(** [normalized_name = (f'{parent}' if parent else None, name)] — the (parent, name) pair
+    (repaired in /repo commit 0c7650b; before that the joined string [f'{parent}+{name}']) *)
+Definition ckey := (option string * string)%type.
 
-Definition pcache := list (string * string * pdef).   (* loader name, key, definition *)
+Definition cache_key (parent : pyparent) (name : string) : ckey :=
+  (if p_truthy parent then Some (p_str parent) else None, name).
 
-Fixpoint cache_find (l key : string) (c : pcache) : option pdef :=
+Definition ckey_eqb (a b : ckey) : bool :=
+  match fst a, fst b with
+  | Some x, Some y => x =? y
+  | None, None => true
+  | _, _ => false
+  end && (snd a =? snd b).
+
+Definition pcache := list (string * ckey * pdef).   (* loader name, key, definition *)
+
+Fixpoint cache_find (l : string) (key : ckey) (c : pcache) : option pdef :=
   match c with
   | [] => None
-  | (l', k', d) :: r => if (l =? l') && (key =? k') then Some d else cache_find l key r
+  | (l', k', d) :: r => if (l =? l') && ckey_eqb key k' then Some d else cache_find l key r
   end.
 
 Record state := { s_sys : sysst; s_cache : pcache }.
